@@ -350,7 +350,14 @@ type World struct {
 func NewWorld(base, rootName string) (*World, error) {
 	// one fixed directory per worker process: runs are sequential, and a
 	// re-execution of a plan sees exactly the same paths
-	sb := realfp.Join(base, "wrld")
+	// (the directory's name pads the sandbox path to a fixed length, so that
+	// where PATH_MAX falls in a deep tree does not depend on the worker's pid
+	// or index)
+	name := "wrld"
+	if n := len(base) + 1 + len(name); n < 64 {
+		name += strings.Repeat("_", 64-n)
+	}
+	sb := realfp.Join(base, name)
 	realos.RemoveAll(sb)
 	if err := realos.MkdirAll(sb, 0o755); err != nil {
 		return nil, err
